@@ -45,7 +45,7 @@ def showState (r : R) : String :=
 
 /-- the iterator callback used by both sides: add `d`, stop after an element `x` with `x % m = k`;
 the closure state is an order-sensitive checksum of the values seen (`acc*31 + x mod 2^32`),
-printed as the op's output, so the visiting order itself is observed. -/
+printed as the op's output, so the visiting order itself is observed (initial state 1). -/
 def cb (d m k : Nat) (acc : Nat) (o : Option Nat) : Ring.CbRes Nat Nat :=
   match o with
   | none => ⟨(acc * 31) % 4294967296, some d, !(0 % m == k)⟩   -- Go: zero value (unreachable for well-formed rings)
@@ -71,10 +71,10 @@ def step (r : R) : List String → R × String
   | ["isfull"] => (r, s!"{r.isFull} {showState r}")
   | ["maxlen"] => (r, s!"{r.maxLen} {showState r}")
   | ["foreach", d, m, k] => match d.toNat?, m.toNat?, k.toNat? with
-    | some d, some m, some k => let p := r.forEach (cb d m k) 0; (p.2, s!"{p.1} {showState p.2}")
+    | some d, some m, some k => let p := r.forEach (cb d m k) 1; (p.2, s!"{p.1} {showState p.2}")
     | _, _, _ => (r, "bad-op")
   | ["foreachrev", d, m, k] => match d.toNat?, m.toNat?, k.toNat? with
-    | some d, some m, some k => let p := r.forEachReverse (cb d m k) 0; (p.2, s!"{p.1} {showState p.2}")
+    | some d, some m, some k => let p := r.forEachReverse (cb d m k) 1; (p.2, s!"{p.1} {showState p.2}")
     | _, _, _ => (r, "bad-op")
   | _ => (r, "bad-op")
 
